@@ -293,7 +293,7 @@ func (f *formatting) formatArrayLiteral(n *ArrayLiteral) {
 		}
 	}
 	f.indentLevel--
-	if multi[length-1].isNL() {
+	if last := multi[length-1]; last.isNL() || last.isComment() { // the closing bracket starts a line
 		f.indent()
 	}
 	f.write("]")
@@ -329,7 +329,7 @@ func (f *formatting) formatMapLiteral(n *MapLiteral) {
 		}
 	}
 	f.indentLevel--
-	if multi[length-1].isNL() {
+	if last := multi[length-1]; last.isNL() || last.isComment() { // the closing bracket starts a line
 		f.indent()
 	}
 	f.write("}")
